@@ -71,10 +71,23 @@ impl Prop for C09 {
                 workers: 16,
                 build: Build::Normal,
             },
+            Leg {
+                name: "huge",
+                kind: LegKind::Random {
+                    cases: tier.pick(1, 12),
+                },
+                workers: 16,
+                build: Build::Normal,
+            },
         ]
     }
 
-    fn strategy(_leg: &str, tier: Tier) -> BoxedStrategy<Case> {
+    fn strategy(leg: &str, tier: Tier) -> BoxedStrategy<Case> {
+        if leg == "huge" {
+            return gen::huge_dg()
+                .prop_map(|(g, family)| Case::Contiguous { g: gen::truncate_dg(g, 600), family })
+                .boxed();
+        }
         prop_oneof![
             3 => gen::digraph_labeled_big(tier.pick(14, 60)).prop_map(|(g, family)| Case::Contiguous { g, family }),
             1 => gen::map_digraph().prop_map(|g| Case::Map { g }),
